@@ -298,10 +298,11 @@ func (ex *Explorer) merge(r *PathResult) {
 // ---------- Machine: state of one path ----------
 
 type Machine struct {
-	eng    *Engine
-	cfg    Config
-	tf     *TermFactory
-	solver *Solver
+	fmtDigits bool // fork on the digit count of symbolic integers rendered by fmt
+	eng       *Engine
+	cfg       Config
+	tf        *TermFactory
+	solver    *Solver
 
 	prefix []Decision
 	pos    int
